@@ -452,9 +452,12 @@ def element_leaves(e):
     """Flatten an element into (kind, reference shape, degree, continuous) leaves, in the order
     of its flattened reference value.  `kind` names the declared push-forward."""
     kind = pullback_kind(e)
-    if kind in ("mixed", "symmetric"):
+    subs = list(getattr(e, "sub_elements", ()) or ())
+    if kind in ("mixed", "symmetric") or (kind == "identity" and subs and getattr(e, "vf_kind", None) is None):
+        # (a mixed element whose sub-elements are all identity-mapped may declare the plain identity pull-back, e.g. the
+        # mixed element UFL builds for derivative(F, (u, p)): its components still have the degrees of the sub-elements)
         out = []
-        for s in e.sub_elements:
+        for s in subs:
             out.extend(element_leaves(s))
         return out
     deg = e.embedded_superdegree
